@@ -483,6 +483,12 @@ package common
 //@   ensures active: err == nil ==> len(r.ActiveIndices) == act_count(indicesBounded, epoch, len(indicesBounded)) && (forall i :: {indicesBounded[i]} 0 <= i && i < len(indicesBounded) && is_active(indicesBounded[i], epoch) ==> r.ActiveIndices[act_count(indicesBounded, epoch, i)] == indicesBounded[i].Index)
 //@   ensures shuffled: err == nil ==> len(r.Shuffling) == len(r.ActiveIndices) && (len(r.Shuffling) > 1 && spec.SHUFFLE_ROUND_COUNT % 256 > 0 ==> (forall x :: {r.Shuffling[x]} 0 <= x && x < len(r.Shuffling) ==> r.Shuffling[x] == r.ActiveIndices[sh_fwd(seed_of(spec, st_mixes(state), epoch, DOMAIN_BEACON_ATTESTER), len(r.Shuffling), x, spec.SHUFFLE_ROUND_COUNT % 256)]))
 
+// sync committee rotation in the state (assumed, recorded) and the committee built for it
+//@ ghost n_rotate_sync int
+//@ func (s SyncCommitteeBeaconState) RotateSyncCommittee(next) err
+//@   trusted
+//@   assigns ghost(n_rotate_sync)
+//@   ensures n_rotate_sync == old(n_rotate_sync) + 1
 // RotateEpochs (one epoch further): the shufflings shift (previous := current, current := next), the next shuffling is
 // computed for current.epoch + 1 from the state's registry, and the stake figures are reloaded from the state for the
 // new current epoch. (That the shifted shufflings equal ones computed from scratch is a statement about histories: not claimed.)
@@ -1502,6 +1508,7 @@ package common
 //@   assigns ghost(n_set_bal)
 //@   assigns ghost(n_aelig_write), ghost(n_set_act), ghost(last_set_act_v), ghost(last_set_act_val)
 //@   assigns ghost(n_set_root)
+//@   assigns ghost(n_rotate_sync)
 //@   assigns ghost(n_eth1_reset), ghost(n_slash_reset), ghost(last_slash_reset), ghost(n_set_mix), ghost(last_set_mix_epoch), ghost(last_set_mix), ghost(n_hist_update)
 //@   assigns ghost(n_set_lhdr), ghost(set_lhdr)
 //@   assigns ghost(n_set_prevjust), ghost(set_prevjust), ghost(n_set_curjust), ghost(set_curjust), ghost(n_set_fin), ghost(set_fin), ghost(n_set_jbits), ghost(set_jbits)
@@ -1530,6 +1537,7 @@ package common
 //@   assigns ghost(n_aelig_write), ghost(n_set_act), ghost(last_set_act_v), ghost(last_set_act_val)
 //@   assigns ghost(n_set_root)
 //@   assigns ghost(n_vote_append), ghost(last_vote_append), ghost(n_set_eth1), ghost(set_eth1)
+//@   assigns ghost(n_rotate_sync)
 //@   assigns ghost(n_eth1_reset), ghost(n_slash_reset), ghost(last_slash_reset), ghost(n_set_mix), ghost(last_set_mix_epoch), ghost(last_set_mix), ghost(n_hist_update)
 //@   assigns ghost(n_set_mix), ghost(last_set_mix_epoch), ghost(last_set_mix)
 //@   assigns ghost(n_set_lhdr), ghost(set_lhdr)
